@@ -288,8 +288,12 @@ static SimFile *file_new(int kind);
 static void file_unref(SimFile *f);
 
 static SimProc *proc_new(const char *role, SimProc *parent) {
-    if (nprocs >= MAXP) { fprintf(stderr, "nanosim: out of process slots\n"); abort(); }
-    SimProc *p = &procs[nprocs++];
+    SimProc *p = NULL;
+    for (int i = 0; i < nprocs && !p; i++) if (procs[i].reusable) p = &procs[i];
+    if (!p) {
+        if (nprocs >= MAXP) { fprintf(stderr, "nanosim: out of process slots\n"); abort(); }
+        p = &procs[nprocs++];
+    }
     memset(p, 0, sizeof *p);
     p->pid = next_pid++;
     p->ppid = parent ? parent->pid : 1;
@@ -1282,5 +1286,21 @@ pid_t __wrap_wait(int *st) {
         for (int i = 0; i < nprocs; i++) if (procs[i].ppid == me->pid && !procs[i].reaped) { any = true; if (proc_waitable(&procs[i])) return k_waitpid(procs[i].pid, st, 0); }
         if (!any) { errno = ECHILD; return -1; }
         sim_sleep_us(10);
+    }
+}
+
+/* batch families spawn hundreds of short-lived processes per run: let the table reuse the slots of processes that are
+ * dead, have no task left and that the caller no longer refers to */
+void sim_forget_dead(void) {
+    for (int i = 0; i < nprocs; i++) {
+        SimProc *p = &procs[i];
+        if (p->alive || p->in_vfork_child || p->reusable) continue;
+        bool busy = false;
+        for (int t = 0; t < MAXT; t++) if (tasks[t].state != T_FREE && tasks[t].state != T_DONE && tasks[t].p == p) busy = true;
+        if (busy) continue;
+        for (int j = 0; j < NIMAGES; j++) if (images[j].owner == p) images[j].owner = NULL;
+        if (p->fout) { fclose(p->fout); fclose(p->ferr); p->fout = p->ferr = NULL; }
+        free(p->imgdata); p->imgdata = NULL;
+        p->reusable = true; p->reaped = true; p->zombie = false; p->pid = -1;
     }
 }
